@@ -260,6 +260,10 @@ func show(s string) string {
 	return s
 }
 
+// refinedClass: set by localise when the disagreeing sub-query was applied to
+// several kinds of values: the kinds for which it disagrees.
+var refinedClass string
+
 // localise finds the smallest sub-query of the pair that disagrees although
 // its inputs agree, and the class of the values it was applied to.
 func localise(holder any, p pick, multiset bool) (culprit string, where string, class string, orderOnly bool) {
@@ -300,6 +304,20 @@ func localise(holder any, p pick, multiset bool) (culprit string, where string, 
 		name := subs[i].Q.Name
 		if subs[i].Q.Kind != "atom" {
 			name = subs[i].Q.Kind + "-" + name
+		}
+		if strings.Contains(cls, "+") {
+			// several kinds of inputs: which of them does the sub-query disagree on?
+			src := strings.TrimSuffix(subs[i].Prefix, " | ")
+			if src == "" {
+				src = "."
+			}
+			q := subs[i].Q.String()
+			rr, rbad, rerr := evalEach(holder, []item{{p.n.Path, `[limit(64; ` + src + ` | select([try (` + q + ` | tovalue) catch "E~"] != [try (tovalue | ` + q + ` | tovalue) catch "E~"]) | type + (if . == -9223372036854775808 then "(min-int64)" else "" end) + (if (try (._name | type) catch "") == "string" then "~dv" else "" end))] | unique | join("+")`}})
+			if rerr == nil && !rbad[0] && len(rr[0].DV.Vals) == 1 {
+				if s, ok := rr[0].DV.Vals[0].(string); ok && s != "" {
+					refinedClass = s
+				}
+			}
 		}
 		return name, subs[i].Prefix + subs[i].Q.String(), cls, !multiset && r.DV.canon(true) == r.JV.canon(true)
 	}
@@ -452,8 +470,14 @@ func checkPicks(c *harness.Case, holder any, picks []pick) caseStats {
 		if dv == jv {
 			continue
 		}
+		refinedClass = ""
 		culprit, where, class, orderOnly := localise(holder, p, multiset)
 		sig := "diff:" + culprit + ":" + class
+		if !harness.Known(sig) && refinedClass != "" && refinedClass != class {
+			// name the finding by the kinds of inputs that actually disagree
+			class = refinedClass
+			sig = "diff:" + culprit + ":" + class
+		}
 		if strings.Contains(class, "number(min-int64)") && arithNames()[culprit] {
 			// one root: the decode value (and tonumber of it) holds -2^63 as a big
 			// integer, its tovalue as a machine integer, whose arithmetic
